@@ -9,11 +9,12 @@ import (
 )
 
 // Effect keys (type-based alias classes; sound without unsafe/reflect, which the C18 rules check):
-//   field:<pkg.Struct>.<Field>   store to a struct field
-//   elem:<T>                     store to an element of []T / [n]T (incl. copy() and external writers)
-//   global:<pkg.name>            store to a package-level variable
-//   map:<maptype>                map update / delete
-//   deref:<T>                    store through a *T that is not a field/element/global address
+//
+//	field:<pkg.Struct>.<Field>   store to a struct field
+//	elem:<T>                     store to an element of []T / [n]T (incl. copy() and external writers)
+//	global:<pkg.name>            store to a package-level variable
+//	map:<maptype>                map update / delete
+//	deref:<T>                    store through a *T that is not a field/element/global address
 type effectSet map[string]bool
 
 func (e effectSet) add(k string) bool {
@@ -37,60 +38,60 @@ func (e effectSet) sorted() []string {
 // Index = argument position in ssa CallCommon.Args (receiver first for static method calls);
 // for interface invokes the receiver is not in Args.
 var externalReadOnly = map[string]string{
-	"(encoding/binary.bigEndian).Uint16":        "reads 2 octets of its argument",
-	"(encoding/binary.bigEndian).Uint32":        "reads 4 octets of its argument",
-	"(encoding/binary.bigEndian).Uint64":        "reads 8 octets of its argument",
-	"crypto/hmac.Equal":                         "compares two byte strings",
-	"crypto/hmac.New":                           "copies the key into the new HMAC state",
-	"crypto/subtle.ConstantTimeCompare":         "compares two byte strings",
-	"bytes.Equal":                               "compares two byte strings",
-	"bytes.NewReader":                           "wraps the slice read-only (bytes.Reader never writes its buffer)",
-	"bufio.NewReader":                           "wraps a reader",
-	"(*bufio.Reader).ReadByte":                  "reads from the underlying reader into bufio's own buffer",
-	"crypto/aes.NewCipher":                      "expands the key into the cipher's own schedule",
-	"crypto/cipher.NewCBCDecrypter":             "copies the IV (documented: NewCBCDecrypter dups iv)",
-	"crypto/cipher.NewCBCEncrypter":             "copies the IV",
-	"encoding/hex.EncodeToString":               "reads its argument",
-	"encoding/hex.Dump":                         "reads its argument",
-	"crypto/rand.Int":                           "reads max; draws from the reader (crypto/rand.Reader is safe for concurrent use)",
-	"(*math/big.Int).Cmp":                       "reads receiver and argument",
-	"(*math/big.Int).Bytes":                     "reads the receiver, returns a fresh slice",
-	"github.com/pkg/errors.Errorf":              "formats its arguments",
-	"github.com/pkg/errors.Wrapf":               "formats its arguments",
-	"github.com/pkg/errors.Wrap":                "wraps an error",
-	"github.com/pkg/errors.New":                 "makes an error",
-	"fmt.Sprintf":                               "formats its arguments",
-	"strconv.FormatUint":                        "formats an integer",
-	"strings.Repeat":                            "builds a string",
-	"net.ParseIP":                               "parses a string",
-	"(net.IP).To4":                              "returns a sub-slice of the receiver, writes nothing",
-	"sort.Slice":                                "sorts the slice passed (an element write, recorded as elem effect by the caller rule)",
-	"encoding/binary.Write":                     "serialises data into the writer; data is only read",
-	"(*bytes.Buffer).Bytes":                     "returns the buffer's contents",
-	"(*bytes.Buffer).Write":                     "copies p into the buffer",
-	"iface:hash.Hash.Write":                     "hash.Hash.Write reads p (io.Writer contract: must not modify the slice)",
-	"iface:hash.Hash.Sum":                       "appends to its argument; recorded as append",
-	"iface:hash.Hash.Reset":                     "resets the hash state",
-	"iface:hash.Hash.Size":                      "pure",
-	"iface:error.Error":                         "pure",
-	"crypto/sha256.New":                         "constructor",
-	"crypto/sha1.New":                           "constructor",
-	"crypto/md5.New":                            "constructor",
+	"(encoding/binary.bigEndian).Uint16": "reads 2 octets of its argument",
+	"(encoding/binary.bigEndian).Uint32": "reads 4 octets of its argument",
+	"(encoding/binary.bigEndian).Uint64": "reads 8 octets of its argument",
+	"crypto/hmac.Equal":                  "compares two byte strings",
+	"crypto/hmac.New":                    "copies the key into the new HMAC state",
+	"crypto/subtle.ConstantTimeCompare":  "compares two byte strings",
+	"bytes.Equal":                        "compares two byte strings",
+	"bytes.NewReader":                    "wraps the slice read-only (bytes.Reader never writes its buffer)",
+	"bufio.NewReader":                    "wraps a reader",
+	"(*bufio.Reader).ReadByte":           "reads from the underlying reader into bufio's own buffer",
+	"crypto/aes.NewCipher":               "expands the key into the cipher's own schedule",
+	"crypto/cipher.NewCBCDecrypter":      "copies the IV (documented: NewCBCDecrypter dups iv)",
+	"crypto/cipher.NewCBCEncrypter":      "copies the IV",
+	"encoding/hex.EncodeToString":        "reads its argument",
+	"encoding/hex.Dump":                  "reads its argument",
+	"crypto/rand.Int":                    "reads max; draws from the reader (crypto/rand.Reader is safe for concurrent use)",
+	"(*math/big.Int).Cmp":                "reads receiver and argument",
+	"(*math/big.Int).Bytes":              "reads the receiver, returns a fresh slice",
+	"github.com/pkg/errors.Errorf":       "formats its arguments",
+	"github.com/pkg/errors.Wrapf":        "formats its arguments",
+	"github.com/pkg/errors.Wrap":         "wraps an error",
+	"github.com/pkg/errors.New":          "makes an error",
+	"fmt.Sprintf":                        "formats its arguments",
+	"strconv.FormatUint":                 "formats an integer",
+	"strings.Repeat":                     "builds a string",
+	"net.ParseIP":                        "parses a string",
+	"(net.IP).To4":                       "returns a sub-slice of the receiver, writes nothing",
+	"sort.Slice":                         "sorts the slice passed (an element write, recorded as elem effect by the caller rule)",
+	"encoding/binary.Write":              "serialises data into the writer; data is only read",
+	"(*bytes.Buffer).Bytes":              "returns the buffer's contents",
+	"(*bytes.Buffer).Write":              "copies p into the buffer",
+	"iface:hash.Hash.Write":              "hash.Hash.Write reads p (io.Writer contract: must not modify the slice)",
+	"iface:hash.Hash.Sum":                "appends to its argument; recorded as append",
+	"iface:hash.Hash.Reset":              "resets the hash state",
+	"iface:hash.Hash.Size":               "pure",
+	"iface:error.Error":                  "pure",
+	"crypto/sha256.New":                  "constructor",
+	"crypto/sha1.New":                    "constructor",
+	"crypto/md5.New":                     "constructor",
 }
 
 // External callees that write the elements of a slice argument: callee -> argument index in Args.
 var externalWritesArg = map[string][]int{
-	"(encoding/binary.bigEndian).PutUint16":       {1},
-	"(encoding/binary.bigEndian).PutUint32":       {1},
-	"(encoding/binary.bigEndian).PutUint64":       {1},
-	"io.ReadFull":                                 {1},
-	"crypto/rand.Read":                            {0},
-	"iface:crypto/cipher.BlockMode.CryptBlocks":   {0},
-	"sort.Slice":                                  {0},
-	"(*math/big.Int).Exp":                         {0},
-	"(*math/big.Int).SetString":                   {0},
-	"(*math/big.Int).SetUint64":                   {0},
-	"(*math/big.Int).SetBytes":                    {0},
+	"(encoding/binary.bigEndian).PutUint16":     {1},
+	"(encoding/binary.bigEndian).PutUint32":     {1},
+	"(encoding/binary.bigEndian).PutUint64":     {1},
+	"io.ReadFull":                               {1},
+	"crypto/rand.Read":                          {0},
+	"iface:crypto/cipher.BlockMode.CryptBlocks": {0},
+	"sort.Slice":                                {0},
+	"(*math/big.Int).Exp":                       {0},
+	"(*math/big.Int).SetString":                 {0},
+	"(*math/big.Int).SetUint64":                 {0},
+	"(*math/big.Int).SetBytes":                  {0},
 }
 
 type funcEffects struct {
